@@ -176,7 +176,7 @@ pub fn filter_config(j: &J) -> DltFilterConfig {
         app_ids: ids("app"),
         ecu_ids: ids("ecu"),
         context_ids: ids("ctx"),
-        app_id_count: j["appc"].as_i64().unwrap(),
-        context_id_count: j["ctxc"].as_i64().unwrap(),
+        app_id_count: match j["appc"].as_i64().unwrap() { x if x <= -(1 << 30) => i64::MIN, x if x >= 1 << 30 => i64::MAX, x => x },
+        context_id_count: match j["ctxc"].as_i64().unwrap() { x if x <= -(1 << 30) => i64::MIN, x if x >= 1 << 30 => i64::MAX, x => x },
     }
 }
